@@ -687,15 +687,15 @@ def _ex(q, t):
 
 SUBCHECKS = [
     SubCheck("neighbour-schemes", body_scheme, strategy=scheme_cases("neighbour"),
-             examples=_ex(960, 9600), shards=_ex(4, 16)),
+             examples=_ex(960, 24000), shards=_ex(4, 16)),
     SubCheck("zeroth-schemes", body_scheme, strategy=scheme_cases("zeroth"),
-             examples=_ex(320, 2400), shards=_ex(2, 8)),
+             examples=_ex(320, 6000), shards=_ex(2, 8)),
     SubCheck("split-schemes", body_scheme, strategy=scheme_cases("split"),
-             examples=_ex(600, 6400), shards=_ex(4, 16)),
+             examples=_ex(600, 16000), shards=_ex(4, 16)),
     SubCheck("kernel-schemes", body_scheme, strategy=scheme_cases("kernel"),
-             examples=_ex(600, 6400), shards=_ex(3, 16)),
+             examples=_ex(600, 16000), shards=_ex(3, 16)),
     SubCheck("block-assembly", body_blocks, strategy=block_cases(),
-             examples=_ex(480, 4800), shards=_ex(3, 16)),
+             examples=_ex(480, 12000), shards=_ex(3, 16)),
     SubCheck("scheme-reassignment", body_reuse, strategy=reuse_cases(),
-             examples=_ex(480, 4800), shards=_ex(3, 16)),
+             examples=_ex(480, 12000), shards=_ex(3, 16)),
 ]
